@@ -191,18 +191,18 @@ def structure_rules(ctx):
 _c19_census = c19
 
 
-def fresh_state(ctx):
-    """C19.R6: what a pass remembers during a walk does not survive into the next Linter::run"""
+def fresh_state(ctx, rule="C19.R6"):
+    """C19.R6 / C10.R4: what a pass remembers during a walk does not survive into the next Linter::run"""
     F, rep = ctx.F, ctx.rep
     from .c06 import type_closure
     from ..core import place_fields
-    rep.rule("C19.R6", "fresh state per run: every field of a lint pass (or of what it contains) that is written while walking a program is "
+    rep.rule(rule, "fresh state per run: every field of a lint pass (or of what it contains) that is written while walking a program is "
              "re-initialised by a Pass method that Linter::run calls on that pass before visit_program, on every path (whole-value "
              "overwrite from the constructor, or a write of each such field); otherwise the second program linted with one Linter "
              "is judged against what the first one left behind (Linter::run takes &mut self and is public)")
     run = F.fn("linter::Linter::run")
     if run is None:
-        rep.fail("C19.R6", "anchor::Linter::run", "Linter::run not found")
+        rep.fail(rule, "anchor::Linter::run", "Linter::run not found")
         return
     rep.analysed(run)
     pass_impls = [im for im in F.impls if im.get("trait") == "linter::Pass"]
@@ -261,19 +261,19 @@ def fresh_state(ctx):
         short = ty.s.replace("analysis::visit::", "").replace("linter::passes::", "")
         if not state:
             n += 1
-            rep.ob("C19.R6", "stateless::%s" % short, True, "", "%s:%s" % (im["file"], im["lo"]), how="no field of the pass is written during a walk")
+            rep.ob(rule, "stateless::%s" % short, True, "", "%s:%s" % (im["file"], im["lo"]), how="no field of the pass is written during a walk")
         for adt, f in sorted(state):
             n += 1
             if not whole and (adt, f) not in covered and _restored(F, adt, f):
-                rep.ob("C19.R6", "state-survives::%s.%s" % (adt, f), True, "", "%s:%s" % (im["file"], im["lo"]),
+                rep.ob(rule, "state-survives::%s.%s" % (adt, f), True, "", "%s:%s" % (im["file"], im["lo"]),
                        how="every function that writes it leaves it at the constant the constructor gives it")
                 continue
             ok = whole or (adt, f) in covered
-            rep.ob("C19.R6", "state-survives::%s.%s" % (adt, f), ok,
+            rep.ob(rule, "state-survives::%s.%s" % (adt, f), ok,
                    "" if ok else "%s.%s is written while a program is walked and nothing re-initialises it before the next walk: Linter::run calls %s on the pass before visit_program, and %s has %s" % (
                        adt.rsplit("::", 1)[-1], f, sorted(pre_methods) or "no Pass method", short, "no such method of its own" if not resets else "a method that does not overwrite it on every path"),
                    "%s:%s" % (im["file"], im["lo"]), how="re-initialised by %s before every walk" % (sorted(pre_methods),))
-    rep.floor("C19.R6", n, 2, "lint passes")
+    rep.floor(rule, n, 2, "lint passes")
 
 
 def _restored(F, adt, field):
